@@ -38,7 +38,7 @@ def lambda_parameter(a):
     return (lambda fscope: h(fscope))(a)        # idem
 
 
-def nonlocal_in_nested(n):
+def nonlocal_in_nested(n):      # differed ((13, 8) vs (1, 2)) until Scope.finalize forwarded reads of declared nonlocal names
     break_ = 5
 
     def g():
